@@ -2,6 +2,7 @@ package main
 
 import (
 	"fmt"
+	"runtime"
 
 	jmespath "github.com/jmespath/go-jmespath"
 
@@ -134,6 +135,9 @@ func c13(r *mon.Run) {
 					seq[k] = seq[rng.Intn(k)]
 				default:
 					seq[k] = rng.Intn(len(pool))
+				}
+				if k == 0 && i < len(fixed)*2 {
+					seq[k] = 0 // the fixed expressions are written for the base document: it comes first, again somewhere, and last
 				}
 			}
 			sawFail, failThenOK, repeated := false, false, false
@@ -421,5 +425,50 @@ func c13(r *mon.Run) {
 			t.Count("long histories (3000 calls)")
 			t.Nontrivial("lh:" + expr)
 		}}
-	r.Exec(hist, ph, lph, sh, lsh)
+	// the caller updates its typed slices in place between two searches, or hands over a freshly built document
+	// of the same shape (which may well land at the address of the previous one): a compiled expression sees
+	// what the document holds now
+	type tdoc struct {
+		Tags []string
+		Nums []float64
+		Rows []map[string]interface{}
+	}
+	texprs := []string{"contains(Tags, 'prod')", "join(',', Tags)", "length(Tags)", "sum(Nums)", "max(Nums)", "sort(Nums)[0]", "sort(Tags)[-1]", "reverse(Tags)[0]", "avg(Nums)", "to_string(Tags)", "type(Nums)",
+		"max_by(Rows, &n).n", "sort_by(Rows, &n)[0].n", "map(&n, Rows)", "length(Rows)", "not_null(Tags)[0]", "to_array(Nums)[1]", "min(Tags)", "Tags[?contains(@, 'd')] | length(@)", "merge(Rows[0], Rows[1]).n"}
+	tsu := mon.Workload{Name: "typed-slice-updates-between-searches", N: len(texprs) * 3, Batch: 10,
+		Do: func(i int, t *mon.Tally) {
+			expr := texprs[i/3]
+			mode := i % 3 // 0: one document updated in place, 1: a fresh document every round, 2: both alternating
+			jp, co := apiCompile(expr)
+			if co.Panicked || co.Err != nil {
+				r.Inconclusive("C13 workload expression does not compile: " + expr)
+				return
+			}
+			mk := func(k int) *tdoc {
+				return &tdoc{Tags: []string{"dev", fmt.Sprint("t", k), "stage"}, Nums: []float64{float64(k), 2, 30}, Rows: []map[string]interface{}{{"n": float64(k % 5)}, {"n": float64(3)}}}
+			}
+			d := mk(0)
+			for k := 1; k <= 200; k++ {
+				if mode == 1 || (mode == 2 && k%2 == 0) {
+					d = mk(k)
+					if k%16 == 0 {
+						runtime.GC()
+					}
+				} else {
+					d.Tags[k%3] = []string{"prod", "dev", "x", "d"}[k%4]
+					d.Nums[k%3] = float64(k % 11)
+					d.Rows[k%2]["n"] = float64((k * 7) % 13)
+				}
+				t.Eval()
+				got := canonOut(apiJP(jp, d))
+				want := canonOut(apiSearch(expr, d))
+				if got != want {
+					r.Violate(&mon.Violation{Workload: "typed-slice-updates-between-searches", Index: i, API: "(*JMESPath).Search", Expr: expr, DocDesc: clipStr(mon.Snapshot(d), 500),
+						Expected: fmt.Sprintf("round %d: what one-shot Search returns for the document as it is now: %s", k, clipStr(want, 300)), Observed: clipStr(got, 300), Class: "compiled expression answers for an earlier state of the caller's data"})
+					return
+				}
+			}
+			t.Nontrivial("tsu:" + expr + fmt.Sprint(mode))
+		}}
+	r.Exec(hist, ph, lph, sh, lsh, tsu)
 }
